@@ -3,8 +3,11 @@
 package serializer
 
 import (
+	"archive/tar"
 	"bytes"
+	"compress/gzip"
 	"fmt"
+	"io"
 	"sort"
 	"strings"
 	"sync"
@@ -58,6 +61,48 @@ func vnormalize(s string) string {
 		s = n(s)
 	}
 	return s
+}
+
+// vcutArchive re-writes a gzip+tar archive keeping its first `keep` entries; returns the entry count of the input.
+func vcutArchive(in []byte, keep int) ([]byte, int, error) {
+	zr, err := gzip.NewReader(bytes.NewReader(in))
+	if err != nil {
+		return nil, 0, err
+	}
+	tr := tar.NewReader(zr)
+	var out bytes.Buffer
+	zw := gzip.NewWriter(&out)
+	tw := tar.NewWriter(zw)
+	n := 0
+	for {
+		hdr, err := tr.Next()
+		if err == io.EOF {
+			break
+		}
+		if err != nil {
+			return nil, n, err
+		}
+		body, err := io.ReadAll(tr)
+		if err != nil {
+			return nil, n, err
+		}
+		if n < keep {
+			if err := tw.WriteHeader(hdr); err != nil {
+				return nil, n, err
+			}
+			if _, err := tw.Write(body); err != nil {
+				return nil, n, err
+			}
+		}
+		n++
+	}
+	if err := tw.Close(); err != nil {
+		return nil, n, err
+	}
+	if err := zw.Close(); err != nil {
+		return nil, n, err
+	}
+	return out.Bytes(), n, nil
 }
 
 func varchive(files []string) (*licenseclassifier.License, error) {
@@ -317,6 +362,33 @@ func TestVerifC15(t *testing.T) {
 	// duplicate names must be a load error, not a silent overwrite
 	_, err := varchive([]string{"MIT.txt", "MIT.txt"})
 	o.verdict("C15", "dup", err != nil, true, "dup", map[string]interface{}{"what": "archive with a duplicated license name loaded without error"})
+	// an archive with an odd number of entries (cut after a license text, before its hash entry) must be
+	// a load error, never a shorter corpus: parse_none_iff_odd (LC/Props/C15Parse.lean) on the real loader
+	for _, keep := range []int{1, 3} {
+		var full bytes.Buffer
+		what := ""
+		if err := ArchiveLicenses([]string{"MIT.txt", "Apache-2.0.txt"}, &full); err != nil {
+			what = "ArchiveLicenses: " + err.Error()
+		} else if cut, n, err := vcutArchive(full.Bytes(), keep); err != nil || n != 4 {
+			what = fmt.Sprintf("cannot re-write the archive: %v (entries %d)", err, n)
+		} else if _, err := licenseclassifier.New(licenseclassifier.DefaultConfidenceThreshold, licenseclassifier.ArchiveBytes(cut)); err == nil {
+			what = fmt.Sprintf("archive cut to %d entries loaded without error", keep)
+		}
+		o.verdict("C15", fmt.Sprintf("odd%d", keep), what == "", true, fmt.Sprintf("odd%d", keep), map[string]interface{}{"what": what})
+	}
+	// the same archive re-written whole (4 entries) still loads: the re-writer itself is not what fails
+	{
+		var full bytes.Buffer
+		what := ""
+		if err := ArchiveLicenses([]string{"MIT.txt", "Apache-2.0.txt"}, &full); err != nil {
+			what = "ArchiveLicenses: " + err.Error()
+		} else if cut, _, err := vcutArchive(full.Bytes(), 4); err != nil {
+			what = "cannot re-write the archive: " + err.Error()
+		} else if _, err := licenseclassifier.New(licenseclassifier.DefaultConfidenceThreshold, licenseclassifier.ArchiveBytes(cut)); err != nil {
+			what = "re-written whole archive does not load: " + err.Error()
+		}
+		o.verdict("C15", "even4", what == "", true, "even4", map[string]interface{}{"what": what})
+	}
 	// synthetic license files through the ReadLicenseFile variable
 	orig := licenseclassifier.ReadLicenseFile
 	syn := map[string]string{"Syn-A.txt": "This synthetic license grants rights to use the software.\nAll other terms apply.", "Syn-B.txt": "Another work license: original code terms version two.\n"}
